@@ -31,13 +31,9 @@ def run(tier, seed, replay):
     with open(bf, "w") as f:
         for x in rows:
             f.write(x + "\n")
-    r2 = lib.run_tlc(sdir, "MC_Call.tla", "MC_Call.cfg", workers=8, timeout=1800)
-    crows = sorted(set(json.loads(x) for x in r2.printed))
+    from props import e2e_common
+    r2, crows = e2e_common.call_rows(sdir)
     crows = [x for x in crows if '"method":"batch_' in x]
-    cf = os.path.join(scr.path, "calls.ndjson")
-    with open(cf, "w") as f:
-        for x in crows:
-            f.write(x + "\n")
     cov["tlc"] = r.summary()
     cov["tlc_keys"] = rk.summary()
     cov["states"] = r.distinct + rk.distinct
@@ -45,21 +41,16 @@ def run(tier, seed, replay):
     cov["behaviours_exported"] = len(rows)
     cov["samples"].append(json.loads(rows[len(rows) // 2]))
 
-    def extra(d):
-        lib.vt_bindings(scr, d)
-        os.remove(os.path.join(d, "registry.go"))
-    binp = lib.go_module(scr, "e2e", "v2", extra_src=extra)
-    code, out, err, wall = lib.run_bin(binp, ["-in", cf, "-c16", bf], timeout=3000, cwd=os.path.dirname(binp))
-    if code != 0:
-        raise lib.Broken("e2e harness failed: %s" % err[-3000:])
     totals = {}
-    for line in out.splitlines():
-        o = json.loads(line)
-        if o["kind"] == "violation":
-            if o["key"].startswith("C16/"):
-                verdict.add(o["key"], o["what"], o["case"])
-        elif o["kind"] == "stats":
-            totals = o["stats"]
+    for gen, objs in e2e_common.e2e_runs(scr, crows, extra_args=["-c16", bf]):
+        for o in objs:
+            if o["kind"] == "violation":
+                if o["key"].startswith("C16/"):
+                    verdict.add(o["key"], o["what"], o["case"])
+            elif o["kind"] == "stats":
+                for k, v in o["stats"].items():
+                    totals[k] = totals.get(k, 0) + v
+    cov["generations"] = list(e2e_common.GENS)
     cov.update(totals)
     cov["traces_validated_against_impl"] = 0
     cov["evaluations"] = totals.get("c16_calls", 0) + totals.get("c16_behaviours", 0) + totals.get("calls", 0)
